@@ -136,7 +136,7 @@ class SigmaCorrelationCondition:
                 cond_op = SigmaCorrelationConditionOperator[op.upper()]
                 try:
                     cond_count = int(d[op])
-                except ValueError:
+                except (ValueError, TypeError):
                     raise sigma_exceptions.SigmaCorrelationConditionError(
                         f"'{ d[op] }' is no valid Sigma correlation condition count", source=source
                     )
@@ -153,7 +153,7 @@ class SigmaCorrelationCondition:
             cond_percentile = int(d["percentile"])
         except KeyError:
             cond_percentile = None
-        except ValueError:
+        except (ValueError, TypeError):
             raise sigma_exceptions.SigmaCorrelationConditionError(
                 f"'{ d['percentile'] }' is no valid Sigma correlation condition percentile",
                 source=source,
@@ -351,7 +351,7 @@ class SigmaCorrelationTimespan:
                     "y": 31556952,
                 }[self.unit]
             )
-        except (ValueError, KeyError):
+        except (ValueError, KeyError, TypeError, IndexError):
             raise sigma_exceptions.SigmaTimespanError(f"Timespan '{ self.spec }' is invalid.")
 
 
@@ -523,13 +523,20 @@ class SigmaCorrelationRule(SigmaRuleBase, ProcessingItemTrackingMixin):
     ) -> Self:
         kwargs, errors = super().from_dict_common_params(rule, collect_errors, source)
         correlation_rule = rule.get("correlation", dict())
+        if not isinstance(correlation_rule, dict):
+            errors.append(
+                sigma_exceptions.SigmaCorrelationRuleError(
+                    "Sigma correlation definition must be a map", source=source
+                )
+            )
+            correlation_rule = dict()
 
         # Correlation type
         correlation_type = correlation_rule.get("type")
         if correlation_type is not None:
             try:
                 correlation_type = SigmaCorrelationType[correlation_type.upper()]
-            except KeyError:
+            except (KeyError, AttributeError):
                 errors.append(
                     sigma_exceptions.SigmaCorrelationTypeError(
                         f"'{ correlation_type }' is no valid Sigma correlation type", source=source
@@ -549,8 +556,10 @@ class SigmaCorrelationRule(SigmaRuleBase, ProcessingItemTrackingMixin):
             if isinstance(rules_value, str):
                 # Simple rule reference
                 rules = [SigmaRuleReference(rules_value)]
-            elif isinstance(rules_value, list):
-                rules = [SigmaRuleReference(rule) for rule in rules_value]
+            elif isinstance(rules_value, list) and all(
+                isinstance(rule_ref, str) for rule_ref in rules_value
+            ):
+                rules = [SigmaRuleReference(rule_ref) for rule_ref in rules_value]
             else:
                 errors.append(
                     sigma_exceptions.SigmaCorrelationRuleError(
@@ -613,7 +622,11 @@ class SigmaCorrelationRule(SigmaRuleBase, ProcessingItemTrackingMixin):
         aliases = correlation_rule.get("aliases")
         if aliases is not None:
             if isinstance(aliases, dict):
-                aliases = SigmaCorrelationFieldAliases.from_dict(aliases)
+                try:
+                    aliases = SigmaCorrelationFieldAliases.from_dict(aliases)
+                except sigma_exceptions.SigmaError as e:
+                    errors.append(e)
+                    aliases = SigmaCorrelationFieldAliases()
             else:
                 errors.append(
                     sigma_exceptions.SigmaCorrelationRuleError(
@@ -625,12 +638,17 @@ class SigmaCorrelationRule(SigmaRuleBase, ProcessingItemTrackingMixin):
 
         # Condition - can be either a dict (basic condition) or a string (extended condition)
         condition_value = correlation_rule.get("condition")
-        condition: SigmaCorrelationCondition | SigmaExtendedCorrelationCondition
+        condition: SigmaCorrelationCondition | SigmaExtendedCorrelationCondition = (
+            SigmaCorrelationCondition(SigmaCorrelationConditionOperator.GTE, 1, source=source)
+        )  # placeholder for error handling purposes
 
         if condition_value is not None:
             if isinstance(condition_value, dict):
                 # Basic condition
-                condition = SigmaCorrelationCondition.from_dict(condition_value, source=source)
+                try:
+                    condition = SigmaCorrelationCondition.from_dict(condition_value, source=source)
+                except sigma_exceptions.SigmaError as e:
+                    errors.append(e)
             elif isinstance(condition_value, str):
                 # Extended condition - only valid for temporal types
                 if correlation_type not in (
